@@ -10,7 +10,8 @@ NameTypes == {2, 3, 4, 5, 7, 8, 9, 12}      \* NS MD MF CNAME MB MG MR PTR
 \* decompress + lowercase embedded names of the types whose names may be compressed / compare caselessly
 LN(lc, n) == IF lc THEN LowerName(n) ELSE n
 \* lc = TRUE: embedded names lower-cased (canonical form); FALSE: case kept
-CanonMsgRdataG(buf, start, rdlen, type, lc) ==
+\* (SRV has its RFC 2782 layout only in class IN; in any other class type 33 is opaque, RFC 3597)
+CanonMsgRdataGC(buf, start, rdlen, type, class, lc) ==
   LET raw == SubSeq(buf, start + 1, start + rdlen)
       lim == SubSeq(buf, 1, start + rdlen) IN
   IF type \in NameTypes THEN
@@ -20,7 +21,7 @@ CanonMsgRdataG(buf, start, rdlen, type, lc) ==
      IF rdlen < 3 THEN <<999>> ELSE
      LET d == DecodeName(lim, start + 2) IN
      IF d.ok /\ d.first = rdlen - 2 THEN SubSeq(raw, 1, 2) \o WireOf(LN(lc, d.name)) ELSE <<999>>
-  ELSE IF type = 33 THEN
+  ELSE IF type = 33 /\ class = 1 THEN
      IF rdlen < 7 THEN <<999>> ELSE
      LET d == DecodeName(lim, start + 6) IN
      IF d.ok /\ d.first = rdlen - 6 THEN SubSeq(raw, 1, 6) \o WireOf(LN(lc, d.name)) ELSE <<999>>
@@ -31,8 +32,11 @@ CanonMsgRdataG(buf, start, rdlen, type, lc) ==
      IF ~r.ok \/ m.first + r.first + 20 # rdlen THEN <<999>>
      ELSE WireOf(LN(lc, m.name)) \o WireOf(LN(lc, r.name)) \o SubSeq(raw, m.first + r.first + 1, rdlen)
   ELSE raw
+\* without a class: class IN (the callers that compare two values canonicalised the same way need no more)
+CanonMsgRdataG(buf, start, rdlen, type, lc) == CanonMsgRdataGC(buf, start, rdlen, type, 1, lc)
 CanonMsgRdata(buf, start, rdlen, type) == CanonMsgRdataG(buf, start, rdlen, type, TRUE)
 CanonRdata(type, rd) == CanonMsgRdata(rd, 0, Len(rd), type)
+CanonRdataC(class, type, rd) == CanonMsgRdataGC(rd, 0, Len(rd), type, class, TRUE)
 
 RECURSIVE CharStrings(_, _, _)
 CharStrings(w, off, n) ==     \* n = number parsed so far; returns count if the strings fill w exactly, else -1 encoded as 999
